@@ -19,6 +19,8 @@ sys.path.insert(0, os.path.join(core.VERIF, "harness"))
 from translate import imports as tr
 
 PY = "/venv/bin/python"
+SYNTH = os.path.join(core.VERIF, "harness", "corpus", "C01-synth")        # synthetic scenario tree (its own `ioflo`)
+SYNTH_PROJ = os.path.join(core.SCRATCH, "imports", "synthproj")
 
 RUNNER = r'''
 import sys                      # NOTHING else may be imported before the imports under test: the point of C01
@@ -93,7 +95,11 @@ class CHECK(core.Check):
             "module alone (quick and thorough), every ordered pair of modules of the same package (thorough; of the pairs "
             "whose two modules are both loaded by `import ioflo` itself only every 7th). Generated: "
             "random orders of random subsets (2..all modules, with repeats and with the top-level package at a random "
-            "position). Non-trivial = the order loads at least one module; distinct by the order")
+            "position). Thorough tier also: the synthetic tree harness/corpus/C01-synth (42 scenario packages exercising "
+            "the import protocol: cycles, partial modules, star/__all__, fromlist, namespace packages, try/except, "
+            "stdlib sub-module attributes ...; its modules alone, all ordered pairs and small permutations inside a "
+            "scenario, random orders) run against the same model sources built over that tree; there only model == "
+            "CPython is checked. Non-trivial = the order loads at least one module; distinct by the order")
     TRUSTED = ["translator harness/translate/imports.py: ast extraction of import-time events (module level, class bodies, "
                "decorators/defaults; not function bodies), constant folding of sys.version/sys.platform/__name__ tests, "
                "measurement of the non-ioflo modules (existence, what importing them loads and binds) in clean "
@@ -105,9 +111,11 @@ class CHECK(core.Check):
                "removed ioflo.aio.nonblocking)",
                "C01_any_order_core_partial: in ANY sequence of imports of modules of the tree, every import of a module "
                "that `import ioflo` itself loads (55 of the 150 module files) succeeds; C01_after_root_partial: every module "
-               "outside D01c imports after `import ioflo`; C01_reimport: once imported, always importable. NOT proved "
-               "(only exercised by the ordered pairs and random orders of the correspondence): that the FIRST import of a "
-               "module outside that set succeeds after arbitrary other imports (C01_any_order_full)",
+               "outside D01c imports after `import ioflo`; C01_first_noncore_partial: after any sequence of such imports "
+               "the first import of any other module outside D01c succeeds; C01_reimport: once imported, always "
+               "importable. NOT proved "
+               "(only exercised by the ordered pairs and random orders of the correspondence): that the first import of a "
+               "module outside that set succeeds after imports of OTHER modules outside that set (C01_any_order_full)",
                "outside the model: imports and name uses inside function bodies executed at import time, dynamic namespace "
                "manipulation (globals().update), conditions the translator cannot fold (listed under translator.notes)"]
     TECHNIQUE = ("Lean 4: interpreter of CPython's import protocol over an import graph regenerated from the source on every "
@@ -137,6 +145,9 @@ class CHECK(core.Check):
         self._driver_ready = False
         self._stale = {}
         self._tree = None
+        self._synth = None
+        self._synth_ready = False
+        self._synth_done = False
 
     # ------------------------------------------------------------------ translator / graph
     def translate(self):
@@ -169,17 +180,69 @@ class CHECK(core.Check):
             raise core.Infra("cannot build drv-imports: " + log[-1500:])
         self._driver_ready = True
 
+    # ------------------------------------------------------------------ synthetic semantics tree (thorough tier)
+    def synth_graph(self):
+        if self._synth is None:
+            self._synth = tr.build(SYNTH)
+        return self._synth
+
+    def ensure_synth(self):
+        """a scratch lake project with the same model and driver sources over the graph of the synthetic tree"""
+        if self._synth_ready:
+            return
+        g = self.synth_graph()
+        lean = os.path.join(core.LEAN, "IofloModel")
+        files = {"lean-toolchain": open(os.path.join(core.LEAN, "lean-toolchain")).read(),
+                 "lakefile.toml": 'name = "IofloModel"\nversion = "0.1.0"\ndefaultTargets = ["drv-imports"]\n\n'
+                                  '[[lean_lib]]\nname = "IofloModel"\n\n[[lean_exe]]\nname = "drv-imports"\n'
+                                  'root = "IofloModel.Drv.Imports"\n',
+                 "IofloModel/Model/Imports.lean": open(os.path.join(lean, "Model", "Imports.lean")).read(),
+                 "IofloModel/Drv/Proto.lean": open(os.path.join(lean, "Drv", "Proto.lean")).read(),
+                 "IofloModel/Drv/Imports.lean": open(os.path.join(lean, "Drv", "Imports.lean")).read(),
+                 "IofloModel/Generated/ImportGraph.lean": tr.lean_text(g)}
+        with core.lake_lock():
+            for rel, txt in files.items():
+                path = os.path.join(SYNTH_PROJ, rel)
+                os.makedirs(os.path.dirname(path), exist_ok=True)
+                if not os.path.exists(path) or open(path).read() != txt:
+                    with open(path, "w") as f:
+                        f.write(txt)
+            rc, out = core.sh(["lake", "build"], cwd=SYNTH_PROJ)
+        if rc != 0:
+            raise core.Infra("cannot build the driver over the synthetic tree: " + out[-1500:])
+        self._synth_ready = True
+
+    def synth_cases(self, rng):
+        import itertools
+        dom = list(self.synth_graph()["domain"])
+        cases = [{"order": [m], "synth": 1} for m in dom]
+        by = {}
+        for m in dom:
+            by.setdefault(m.split(".")[1] if "." in m else "", []).append(m)
+        for k, ms in sorted(by.items()):
+            for a, b in itertools.permutations(ms, 2):
+                cases.append({"order": [a, b], "synth": 1})
+            if 2 < len(ms) <= 5:
+                for p in itertools.permutations(ms):
+                    cases.append({"order": list(p), "synth": 1})
+        for _ in range(30):
+            c = self._random_case(rng, dom)
+            c["synth"] = 1
+            cases.append(c)
+        return cases
+
     # ------------------------------------------------------------------ real side
-    def _run(self, order):
-        p = subprocess.run([PY, "-I", "-c", RUNNER, self.repo, ",".join(order)], capture_output=True, text=True,
+    def _run(self, order, synth=False):
+        repo = SYNTH if synth else self.repo
+        p = subprocess.run([PY, "-I", "-c", RUNNER, repo, ",".join(order)], capture_output=True, text=True,
                            cwd="/", timeout=600, env={"PATH": os.environ.get("PATH", ""), "IOFLO_VERIF": "1"})
         line = [l for l in p.stdout.splitlines() if l.startswith("@@C01@@")]
         if not line:
             return ["HARNESS no result rc=%s %s" % (p.returncode, (p.stderr or "")[-300:].replace("\n", " | "))]
         r = json.loads(line[-1][7:])
         if r["wrong"]:
-            return ["HARNESS ioflo imported from %s instead of %s" % (r["wrong"], self.repo)]
-        dyn = self.dynamic_modules()
+            return ["HARNESS ioflo imported from %s instead of %s" % (r["wrong"], repo)]
+        dyn = set(self.synth_graph().get("dynamic", [])) if synth else self.dynamic_modules()
         state = [x for x in r["state"] if x.split(":")[0] not in dyn]
         self._detail = getattr(self, "_detail", {})
         for m, o, d in zip(order, r["out"], r["detail"]):
@@ -206,7 +269,7 @@ class CHECK(core.Check):
         cases = list(cases)
         todo = [c for c in cases if core.case_key(c) not in self._cache]
         with concurrent.futures.ThreadPoolExecutor(16) as pool:
-            for c, out in zip(todo, pool.map(lambda c: self._run(c["order"]), todo)):
+            for c, out in zip(todo, pool.map(lambda c: self._run(c["order"], bool(c.get("synth"))), todo)):
                 self._cache[core.case_key(c)] = out
         if todo:
             self.check_tree_unchanged()
@@ -215,7 +278,7 @@ class CHECK(core.Check):
     def impl(self, case):
         k = core.case_key(case)
         if k not in self._cache:
-            self._cache[k] = self._run(case["order"])
+            self._cache[k] = self._run(case["order"], bool(case.get("synth")))
         return self._cache[k]
 
     # ------------------------------------------------------------------ model side
@@ -223,7 +286,7 @@ class CHECK(core.Check):
         return ["reset"] + ["load " + m for m in case["order"]] + ["state"]
 
     def model_post(self, case, replies):
-        dyn = self.dynamic_modules()
+        dyn = set(self.synth_graph().get("dynamic", [])) if case.get("synth") else self.dynamic_modules()
         outs = replies[1:-1]
         state = [x for x in replies[-1].split() if x.split(":")[0] not in dyn and x != "-"]
         return outs + [" ".join(state) if state else "-"]
@@ -231,10 +294,12 @@ class CHECK(core.Check):
     DRV_ENV = {"MALLOC_TRIM_THRESHOLD_": "2000000000", "MALLOC_MMAP_THRESHOLD_": "2000000000",
                "MALLOC_TOP_PAD_": "67108864"}   # the model's state is a few large naturals: keep glibc from trimming
 
-    def _drive(self, lines):
+    def _drive(self, lines, synth=False):
         if not lines:
             return []
-        p = subprocess.run([os.path.join(core.BIN, "drv-" + self.ENGINE)], input="\n".join(lines) + "\n",
+        exe = os.path.join(SYNTH_PROJ, ".lake", "build", "bin", "drv-imports") if synth else \
+            os.path.join(core.BIN, "drv-" + self.ENGINE)
+        p = subprocess.run([exe], input="\n".join(lines) + "\n",
                            stdout=subprocess.PIPE, stderr=subprocess.PIPE, text=True, timeout=3600,
                            env=dict(os.environ, **self.DRV_ENV))
         if p.returncode != 0:
@@ -248,8 +313,20 @@ class CHECK(core.Check):
 
     def model(self, cases):
         """like core.Check.model, but the cases are dealt over up to 16 driver processes"""
-        self.ensure_driver()
         cases = list(cases)
+        if any(c.get("synth") for c in cases) and not all(c.get("synth") for c in cases):
+            idx_s = [i for i, c in enumerate(cases) if c.get("synth")]
+            idx_m = [i for i, c in enumerate(cases) if not c.get("synth")]
+            res = [None] * len(cases)
+            for idx in (idx_s, idx_m):
+                for i, o in zip(idx, self.model([cases[i] for i in idx])):
+                    res[i] = o
+            return res
+        synth = bool(cases) and bool(cases[0].get("synth"))
+        if synth:
+            self.ensure_synth()
+        else:
+            self.ensure_driver()
         k = max(1, min(16, len(cases) // 4))
         batches = [cases[i::k] for i in range(k)]
 
@@ -259,7 +336,7 @@ class CHECK(core.Check):
                 r = list(self.requests(c))
                 spans.append((len(reqs), len(r)))
                 reqs.extend(r)
-            replies = self._drive(reqs)
+            replies = self._drive(reqs, synth)
             return [list(self.model_post(c, replies[a:a + n])) for c, (a, n) in zip(batch, spans)]
         with concurrent.futures.ThreadPoolExecutor(k) as pool:
             outs = list(pool.map(run, batches))
@@ -314,7 +391,11 @@ class CHECK(core.Check):
 
     def generate(self, rng, n, tier):
         dom = self.domain()
-        return self.prefetch([self._random_case(rng, dom) for _ in range(n)])
+        cases = [self._random_case(rng, dom) for _ in range(n)]
+        if tier == "thorough" and not self._synth_done:
+            self._synth_done = True
+            cases += self.synth_cases(rng)
+        return self.prefetch(cases)
 
     def search(self, rng, n, tier):
         return self.generate(rng, n, tier)
@@ -324,6 +405,8 @@ class CHECK(core.Check):
         return self.impl({"order": [m]})[0]
 
     def oracle(self, case, out):
+        if case.get("synth"):
+            return None       # these modules are meant to fail; only model == CPython is checked on them
         order = case["order"]
         if len(out) != len(order) + 1:
             return "harness: %s" % (out[:1],)
@@ -346,6 +429,8 @@ class CHECK(core.Check):
         return len(case["order"]) > 0 and not out[0].startswith("HARNESS")
 
     def bucket(self, case, out):
+        if case.get("synth"):
+            return "synthetic-semantics-tree"
         n = len(case["order"])
         b = "single" if n == 1 else "pair" if n == 2 else "order-3..29" if n < 30 else "order-30+"
         if any(o.startswith("ERR") for o in out[:-1]):
